@@ -4,6 +4,7 @@ import RR.Proof.DspFir
 import RR.Proof.Gated
 import RR.Proof.Verdicts
 import RR.Proof.V2S
+import RR.Proof.Resampler
 
 /-!
 # C09 — block verdicts are truthful
@@ -235,5 +236,38 @@ theorem c09_v2s (p : List Nat) (hp : ∀ x ∈ p, x + 1 < pktBase) (rest : List 
   simp only [hfit, if_true] at h1
   simp only [Nat.lt_irrefl, gt_iff_lt, if_false] at h2
   exact ⟨h1.1, h1.2.1, h2.1, h2.2.2.1⟩
+
+/-- **RationalResampler**, one call on any windows (any ratio, any counter): it reports "waiting for input" only
+when the read window is empty or it has just consumed ALL of it, and "waiting for output" only when the output
+is full (now, or already before the call); it never asks to be called again without a reason. -/
+theorem c09_resampler (I D : Int) (cnt : Int) (w : List Nat) (f : Nat) :
+    let r := resWork I D cnt ⟨[⟨w, [], true⟩], [⟨f, true⟩]⟩
+    (r.2.verdict = .waitIn 0 1 ∧ (w = [] ∨ (0 < f ∧ r.2.consumed.getD 0 0 = w.length))) ∨
+    (r.2.verdict = .waitOut 0 1 ∧ w ≠ [] ∧ (f = 0 ∨ (r.2.produced.getD 0 ⟨[], []⟩).samples.length = f)) := by
+  intro r
+  simp only [r, resWork, in0, out0, noOut, List.getD_cons_zero]
+  by_cases hw : w = []
+  · left; simp [hw]
+  · have hwe : w.isEmpty = false := by cases w <;> simp_all
+    simp only [hwe, Bool.false_eq_true, if_false]
+    by_cases hf : f = 0
+    · right; simp [hf, hw]
+    · have hfb : (f == 0) = false := by simpa using hf
+      simp only [hfb, Bool.false_eq_true, if_false]
+      have hlen := resLoop_len I D f w cnt 0 [] (by simp; omega)
+      have htk := resLoop_taken I D f w cnt 0 []
+      generalize resLoop I D f w cnt 0 [] = L at hlen htk
+      obtain ⟨c, taken, out, full⟩ := L
+      cases full with
+      | true =>
+        right
+        simp only [if_true, List.getD_cons_zero]
+        exact ⟨trivial, hw, Or.inr (hlen.2 rfl)⟩
+      | false =>
+        left
+        simp only [Bool.false_eq_true, if_false, List.getD_cons_zero]
+        refine ⟨trivial, Or.inr ⟨by omega, ?_⟩⟩
+        have := htk rfl
+        simpa using this
 
 end RR.Props.C09
